@@ -24,6 +24,7 @@ ASSUMPTIONS = [
 UNIT_TIMEOUT = {"quick": 150, "thorough": 2400}
 
 COMMON = dict(
+    p_equal_values=0.15,
     p_item_fault=0.05,
     p_wrap=0.6,
     max_nodes=12,
